@@ -179,7 +179,10 @@ ClientChoose(t) ==
            /\ L' = [L EXCEPT !.tg = r.tg]
            /\ K' = IF r.res = "ok" THEN r.q
                    ELSE SetPc([r.q EXCEPT !.T[t].reg = Err("RuntimeError")], t, "unwind")
-           /\ Feed([ev |-> "started", c |-> t, v |-> 100 + t, res |-> IF r.res = "ok" THEN "ok" ELSE "err"])
+           /\ Feed([ev |-> "started", c |-> t, v |-> 100 + t, res |-> IF r.res = "ok" THEN "ok" ELSE "err",
+                    cpc |-> LET u == L.tg.Hd[t].sfcaller IN
+                            B2I(u # 0 /\ K.T[u].st # "done" /\
+                                (K.T[u].must \/ K.T[u].fut = "cancelled" \/ EffCancelled(K, Cur(K, u))))])
         /\ hist' = Append(hist, H(t, "started", 0, 0, 0))
         /\ UNCHANGED E
      \/ /\ n < MaxOps /\ "hcancel" \in Ops
@@ -294,7 +297,7 @@ ClientGroupExited(t) ==
   /\ LET r == Reg(K, t)
          g == 10 * t + L.tg.G[t].n IN
      /\ Feed([ev |-> "tgexit", t |-> t, g |-> g, raised |-> RaisedName(r), leaves |-> SeqOf(LeavesOf(r)),
-              handles |-> SeqOf({HandleRec(c) : c \in MembersOf(t)}), gc |-> GC])
+              handles |-> SeqOf({HandleRec(c) : c \in MembersOf(t)}), gc |-> GC, cc |-> CC(K, t)])
      /\ K' = SetPc(K, t, IF IsExc(r) \/ Top(K, t).b.ending THEN "unwind" ELSE "choose")
   /\ UNCHANGED <<L, E, hist>>
 
